@@ -18,6 +18,7 @@ pub async fn run(op: &str, a: &[String]) -> Option<Vec<String>> {
         "policy" => policy(a).await,
         "bind" => bind(a).await,
         "idle" => idle(a).await,
+        "keepalive" => keepalive(a).await,
         "alpn" => alpn(a).await,
         _ => return None,
     })
@@ -603,6 +604,87 @@ async fn bind(a: &[String]) -> Vec<String> {
 }
 
 // ---------------------------------------------------------------------------------------------
+// keepalive  which ka_ms
+//
+// Both endpoints get `max_idle_timeout(600 ms)`; the endpoint `which` also gets
+// `keep_alive_interval(Some(ka_ms))` (`0` = `None`). The session is left idle for 2 s.
+// obs: `after_2s=<alive|ConnectionError form>` (seen by the *other* endpoint).
+
+async fn keepalive(a: &[String]) -> Vec<String> {
+    let which = arg(a, 0).to_string();
+    let ka_ms = arg_u64(a, 1);
+    let server_side = which == "server";
+    let fail = |e: String| vec!["after_2s=-".to_string(), format!("err={e}")];
+    let rt = match TestRt::new(RT) {
+        Ok(rt) => rt,
+        Err(e) => return fail(e),
+    };
+    let idle_to = Some(Duration::from_millis(600));
+    let ka = if ka_ms == 0 { None } else { Some(Duration::from_millis(ka_ms)) };
+    let built = rt
+        .run(async move {
+            trap_sync(move || {
+                let sb = ServerConfig::builder()
+                    .with_bind_config(IpBindConfig::LocalV4, 0)
+                    .with_identity(self_signed()?)
+                    .max_idle_timeout(idle_to)
+                    .map_err(|_| "idle_timeout".to_string())?;
+                let cb = ClientConfig::builder()
+                    .with_bind_config(IpBindConfig::LocalV4)
+                    .with_no_cert_validation()
+                    .max_idle_timeout(idle_to)
+                    .map_err(|_| "idle_timeout".to_string())?;
+                let (scfg, ccfg) = if server_side {
+                    (sb.keep_alive_interval(ka).build(), cb.build())
+                } else {
+                    (sb.build(), cb.keep_alive_interval(ka).build())
+                };
+                let sep = Endpoint::server(scfg).map_err(|e| format!("bind:{:?}", e.kind()))?;
+                let cep = Endpoint::client(ccfg).map_err(|e| format!("bind:{:?}", e.kind()))?;
+                Ok::<_, String>((Arc::new(sep), Arc::new(cep)))
+            })
+        })
+        .await;
+    let (sep, cep): (Arc<ServerEp>, Arc<ClientEp>) = match built {
+        Ok(Ok(Ok(x))) => x,
+        Ok(Ok(Err(e))) | Ok(Err(e)) | Err(e) => return fail(e),
+    };
+    let port = match sep.local_addr() {
+        Ok(a) => a.port(),
+        Err(e) => return fail(format!("local_addr:{:?}", e.kind())),
+    };
+    let sep2 = sep.clone();
+    let server_task = rt.spawn(async move { accept_session(&sep2).await });
+    let cep2 = cep.clone();
+    let client_res = rt
+        .run(async move {
+            match bounded(cep2.connect(format!("https://127.0.0.1:{port}/"))).await {
+                None => Err("timeout".to_string()),
+                Some(Ok(c)) => Ok(c),
+                Some(Err(e)) => Err(canon::connecting_err(&e)),
+            }
+        })
+        .await;
+    let client_conn = match client_res {
+        Ok(Ok(c)) => c,
+        Ok(Err(e)) | Err(e) => return fail(format!("client:{e}")),
+    };
+    let server_conn = match joined(server_task).await {
+        Ok(Ok(c)) => c,
+        Ok(Err(e)) | Err(e) => return fail(format!("server:{e}")),
+    };
+    tokio::time::sleep(Duration::from_millis(2000)).await;
+    let other = if server_side { &client_conn } else { &server_conn };
+    let state = match other.quic_connection().close_reason() {
+        None => "alive".to_string(),
+        Some(e) => canon::quinn_conn_err(&e),
+    };
+    drop(server_conn);
+    drop(client_conn);
+    vec![format!("after_2s={state}")]
+}
+
+// ---------------------------------------------------------------------------------------------
 // idle  which ms
 
 async fn idle(a: &[String]) -> Vec<String> {
@@ -820,6 +902,9 @@ fn gen_c20(emit: &mut dyn FnMut(&str, Vec<String>)) {
     }
     for which in ["server", "client"] {
         emit("alpn", vec![s(which)]);
+        for ka in [0u64, 150] {
+            emit("keepalive", vec![s(which), s(ka)]);
+        }
     }
 }
 
